@@ -5,7 +5,7 @@
    premises [status k = MgOptimal -> feasible k], [status k = MgInfeasible -> ~ feasible k]. *)
 From Coq Require Import List NArith ZArith QArith Bool Arith Lia.
 Import ListNotations.
-From FP Require Import Lin Blocks BlocksProofs PathEnc MiscEnc MiscEncProofs MgsComplete LowerBoundsMgs MgsRange MgsPartsIff.
+From FP Require Import Lin Blocks BlocksProofs PathEnc MiscEnc MiscEncProofs MgsComplete LowerBoundsMgs MgsRange MgsPartsIff MgsRangeParts.
 Local Open Scope Q_scope.
 
 (* rows/columns of MinGenSet._create_solver(k) => the Gen values are a multiset of size k of values in
@@ -167,6 +167,29 @@ Theorem C15_mgs_always_solves : forall (I : mgs_inst) (status : nat -> mstatus) 
 Proof. exact mgs_always_solves. Qed.
 Print Assumptions C15_mgs_always_solves.
 
+(* ---- the upper end of the search range suffices ALSO WITH PARTITION CONSTRAINTS (cut-point construction: the numbers and
+   the inner prefix sums of every constraint as cut points of [0,total]; the differences of the sorted cut points) ---- *)
+Theorem C15_range_suffices : forall (I : mgs_inst), (1 <= mg_mult I)%nat -> mgs_domain_parts I ->
+  forall k, (Z.of_nat (length (mg_numbers I)) + 1 + extra_cuts (mg_parts I) <= Z.of_nat k)%Z ->
+  (exists g, length g = k /\ genset_for I g) /\ exists a, sat a (encode_mgs I k).
+Proof. exact mgs_range_suffices. Qed.
+Print Assumptions C15_range_suffices.
+
+(* MinGenSet.solve is SOLVED for EVERY input of the documented domain (numbers in [0,total]; every partition constraint a
+   non-empty list of positive parts summing to the total; integral data for int; any lower bound up to the end of the range)
+   and its answer is the MINIMUM -- under the solver specification with truthful statuses *)
+Theorem C15_mgs_always_solves_minimum : forall (I : mgs_inst) (status : nat -> mstatus) (lb n_initial : nat),
+  (1 <= mg_mult I)%nat -> mgs_domain_parts I -> (length (mg_numbers I) <= n_initial)%nat ->
+  (Z.of_nat lb <= Z.of_nat n_initial + 1 + extra_cuts (mg_parts I))%Z ->
+  (forall k, status k = MgOptimal -> exists a, sat a (encode_mgs I k)) ->
+  (forall k, status k = MgInfeasible -> forall a, ~ sat a (encode_mgs I k)) ->
+  (forall k, status k = MgOptimal \/ status k = MgInfeasible) ->
+  exists tried k, mgsm_loop status lb n_initial (extra_cuts (mg_parts I)) = (tried, Some k) /\
+    (exists g, length g = k /\ genset_rows I g) /\ (Nat.max 1 lb <= k)%nat /\
+    forall k' g, (Nat.max 1 lb <= k' < k)%nat -> length g = k' -> ~ genset_rows I g.
+Proof. exact mgs_always_solves_minimum. Qed.
+Print Assumptions C15_mgs_always_solves_minimum.
+
 (* outside that domain: with max_multiplicity = 1 a number above the total has no generating multiset of any size, so every
    model of the search is infeasible and MinGenSet ends unsolved (MinFlowDecomp's lower bound is then unavailable) *)
 Theorem C15_number_above_total_infeasible : forall (numbers : list Q) (total : Q) (g : list Q) (a : Q),
@@ -233,8 +256,7 @@ Print Assumptions C15_loop_unsolved.
 
 (* with conclusive statuses solve() succeeds whenever some size in lowerbound .. len(numbers)+1+extra_cuts is feasible.
    Without partition constraints some size of the range IS feasible (C15_range_upper_end_suffices, C15_mgs_always_solves below);
-   PARTIAL only for partition constraints: that len(numbers)+1+extra_cuts elements suffice there (cut-point construction with
-   the prefix sums of every constraint) is not proved in Coq; it is sampled by E2 *)
+   with partition constraints: C15_range_suffices, C15_mgs_always_solves_minimum) *)
 Theorem C15_loop_complete_partial : forall (feasible : nat -> Prop) (status : nat -> mstatus),
   (forall k, status k = MgInfeasible -> ~ feasible k) ->
   forall lb n extra, (forall k, status k = MgOptimal \/ status k = MgInfeasible) ->
@@ -362,6 +384,10 @@ Proof. split; [apply genset_for_rows; exact ex_parts_genset|reflexivity]. Qed.
 Example C15_nonvacuous_range : range_witness [4; 1; 2] 7 = [1 - 0; 2 - 1; 4 - 2; 7 - 4] /\ mgs_domain ex_range_inst /\
   exists a, sat a (encode_mgs ex_range_inst 4).
 Proof. exact ex_range. Qed.
+Example C15_nonvacuous_range_with_partition_constraints : mgs_domain_parts ex_parts_inst /\
+  cut_witness (mg_numbers ex_parts_inst) (parts_of ex_parts_inst) (mg_total ex_parts_inst) = [1 - 0; 1 - 1; (0 + 2) - 1; (0 + 2 + 2) - (0 + 2); 6 - (0 + 2 + 2)] /\
+  exists a, sat a (encode_mgs ex_parts_inst 5).
+Proof. exact ex_parts_domain. Qed.
 (* a satisfiable MinSetCover model *)
 Example C15_nonvacuous_setcover : exists m, encode_msc {| sc_universe := [1; 2; 3]%N; sc_subsets := [[1; 2]; [2; 3]; [3]]%N; sc_weights := Some [1; 1; 1] |} = Some m /\
   sat (fun v => match vidx v with [i] => if (i =? 2)%N then 0 else 1 | _ => 0 end) m.
